@@ -74,6 +74,10 @@ Definition wf_run_noob_statement : Prop :=
 (* no thread has a resumer: the state of a machine on which no coroutine was ever resumed *)
 Definition par_ok (s : vstate) : Prop := Forall (fun th => th_parent th = None) (vthreads s).
 
+(* the frame stack is X / has X at its bottom; no thread has a resumer *)
+Definition stk (X : list cframe) (s : vstate) : Prop := par_ok s /\ vstack s = X.
+Definition estk (X : list cframe) (s : vstate) : Prop := par_ok s /\ exists k, vstack s = k ++ X.
+
 (* the main loop entered by callR on the frame just pushed (b = its index from the bottom) ends with
    exactly the caller's frames, each as it was; an error leaves them at the bottom of the stack *)
 Definition ml_disc (ml : option nat -> VM unit) : Prop :=
